@@ -1,6 +1,335 @@
-//! Syntactic facts read off the source (struct fields, signatures, unsafe impls, delegation shapes).
-use syn::File;
+//! Syntactic facts read off the source: struct fields, public signatures and what their results
+//! borrow from, `unsafe impl Send/Sync` bounds, the delegation shape of the comparison / hash /
+//! debug / borrow impls, and every allocator call site. Emitted as plain Lean data (enumerations,
+//! no strings) so that theorems about them are decided by the kernel.
+use crate::ex::toks;
+use std::collections::{BTreeMap, BTreeSet};
+use syn::*;
 
-pub fn facts(_files: &[(String, File)]) -> (String, String) {
-  ("/- GENERATED by mvtrans. -/\nnamespace MV.Gen.Facts\nend MV.Gen.Facts\n".to_string(), "{}".to_string())
+fn norm<T: quote::ToTokens>(t: &T) -> String {
+  toks(t).replace(' ', "")
+}
+
+fn field_ty(t: &Type) -> &'static str {
+  let s = norm(t);
+  match s.as_str() {
+    "core::ptr::NonNull<u8>" | "NonNull<u8>" => "nonNullU8",
+    "core::ptr::NonNull<T>" | "core::ptr::NonNull<I::Item>" => "nonNullT",
+    "core::ptr::NonNull<MiniVec<T>>" | "core::ptr::NonNull<MiniVec<I::Item>>" => "nonNullVec",
+    "core::marker::PhantomData<T>" | "PhantomData<T>" => "phantomT",
+    "core::marker::PhantomData<&'aT>" | "core::marker::PhantomData<&'aI::Item>" => "phantomRefT",
+    "usize" => "usize",
+    "bool" => "bool",
+    "*constT" => "rawConstT",
+    "*mutT" => "rawMutT",
+    "*mutu8" | "*constu8" => "rawU8",
+    "T" => "elemT",
+    "&'amutcrate::MiniVec<T>" | "&'amutMiniVec<T>" => "vecRefMut",
+    "crate::MiniVec<T>" | "MiniVec<T>" => "vecOwned",
+    "F" => "closure",
+    "I" => "iter",
+    _ => "other",
+  }
+}
+
+struct SigFact {
+  name: String,
+  recv: &'static str,
+  borrow: &'static str,
+  outlives_bound: bool,
+  is_unsafe: bool,
+}
+
+fn has_lifetime_params(g: &Generics) -> bool {
+  g.params.iter().any(|p| matches!(p, GenericParam::Lifetime(_)))
+}
+
+fn classify_return(sig: &Signature, lifetime_types: &BTreeSet<String>) -> (&'static str, bool) {
+  let recv = sig.receiver();
+  let ret = match &sig.output {
+    ReturnType::Default => return ("none", false),
+    ReturnType::Type(_, t) => t,
+  };
+  let s = norm(ret);
+  let fn_lts: Vec<String> = sig
+    .generics
+    .params
+    .iter()
+    .filter_map(|p| if let GenericParam::Lifetime(l) = p { Some(l.lifetime.to_string()) } else { None })
+    .collect();
+  // `T: 'a` anywhere in the generics / where clause
+  let mut outlives = false;
+  for p in &sig.generics.params {
+    if let GenericParam::Type(t) = p {
+      if t.bounds.iter().any(|b| matches!(b, TypeParamBound::Lifetime(_))) {
+        outlives = true;
+      }
+    }
+  }
+  if let Some(w) = &sig.generics.where_clause {
+    for p in &w.predicates {
+      if let WherePredicate::Type(t) = p {
+        if norm(&t.bounded_ty) == "T" && t.bounds.iter().any(|b| matches!(b, TypeParamBound::Lifetime(_))) {
+          outlives = true;
+        }
+      }
+    }
+  }
+  if s.contains("'static") {
+    return ("static_", outlives);
+  }
+  for l in &fn_lts {
+    if s.contains(l.as_str()) {
+      return ("named", outlives);
+    }
+  }
+  let mentions_ref = s.contains('&') || s.contains("'_") || lifetime_types.iter().any(|t| {
+    // the type is used without a named lifetime argument => elided
+    s.contains(&format!("{}<", t)) || s == *t
+  });
+  if !mentions_ref {
+    return ("none", outlives);
+  }
+  match recv {
+    Some(r) if r.reference.is_some() && r.mutability.is_some() => ("mut_", outlives),
+    Some(r) if r.reference.is_some() => ("shared", outlives),
+    _ => ("none", outlives),
+  }
+}
+
+fn deleg_shape(body: &str) -> &'static str {
+  let b = body.replace(' ', "");
+  // recognised "deref both sides to [T] and delegate" shapes
+  if b.contains("self[..]==other[..]") {
+    "sliceEq"
+  } else if b.contains("letx:&[T]=&**self;lety:&[T]=&**other;x.cmp(y)") {
+    "sliceCmp"
+  } else if b.contains("letx:&[T]=&**self;lety:&[T]=&**other;PartialOrd::partial_cmp(x,y)") {
+    "slicePartialCmp"
+  } else if b.contains("letthis:&[T]=&**self;core::hash::Hash::hash(this,state)") {
+    "sliceHash"
+  } else if b.contains("letthis:&[T]=&*self;this.fmt(f)") {
+    "sliceFmt"
+  } else if b == "{&(self[..])}" || b == "{self}" || b == "{&mut(self[..])}" || b == "{&mut*self}" {
+    "sliceRef"
+  } else if b.contains("letv:&[T]=&**self;core::ops::Index::index(v,index)") {
+    "sliceIndex"
+  } else if b.contains("letv:&mut[T]=&mut**self;core::ops::IndexMut::index_mut(v,index)") {
+    "sliceIndexMut"
+  } else {
+    "other"
+  }
+}
+
+pub fn facts(files: &[(String, File)]) -> (String, String) {
+  let mut structs: BTreeMap<String, (Vec<&'static str>, bool, bool)> = BTreeMap::new(); // fields, repr_c, has lifetime
+  let mut lifetime_types = BTreeSet::new();
+  let mut sigs: Vec<SigFact> = vec![];
+  let mut unsafe_impls: Vec<(String, String, String)> = vec![]; // trait, type, bound on T
+  let mut deleg: BTreeMap<String, &'static str> = BTreeMap::new();
+  let mut alloc_sites: Vec<(String, String)> = vec![];
+  let mut macro_eq_body = String::new();
+
+  for (_, f) in files {
+    for it in &f.items {
+      if let Item::Struct(s) = it {
+        let name = s.ident.to_string();
+        if has_lifetime_params(&s.generics) {
+          lifetime_types.insert(name.clone());
+        }
+      }
+      if let Item::Macro(m) = it {
+        if m.ident.as_ref().map(|i| i == "minivec_eq_impl").unwrap_or(false) {
+          macro_eq_body = norm(&m.mac.tokens);
+        }
+      }
+    }
+  }
+  for (rel, f) in files {
+    for it in &f.items {
+      match it {
+        Item::Struct(s) => {
+          let name = s.ident.to_string();
+          let fields: Vec<&'static str> = match &s.fields {
+            Fields::Named(n) => n.named.iter().map(|f| field_ty(&f.ty)).collect(),
+            Fields::Unnamed(u) => u.unnamed.iter().map(|f| field_ty(&f.ty)).collect(),
+            Fields::Unit => vec![],
+          };
+          let repr_c = s.attrs.iter().any(|a| norm(a).contains("repr(C)"));
+          structs.insert(name, (fields, repr_c, has_lifetime_params(&s.generics)));
+        }
+        Item::Impl(im) => {
+          let self_ty = norm(&im.self_ty);
+          let tr = im.trait_.as_ref().map(|(_, p, _)| p.segments.last().unwrap().ident.to_string());
+          if im.unsafety.is_some() {
+            if let Some(t) = &tr {
+              let bound = im
+                .generics
+                .params
+                .iter()
+                .filter_map(|p| if let GenericParam::Type(tp) = p { Some(norm(&tp.bounds)) } else { None })
+                .collect::<Vec<_>>()
+                .join("+");
+              unsafe_impls.push((t.clone(), self_ty.clone(), bound));
+            }
+          }
+          for ii in &im.items {
+            if let ImplItem::Fn(m) = ii {
+              // allocator call sites
+              struct V<'a>(&'a mut Vec<(String, String)>, String);
+              impl<'a, 'ast> visit::Visit<'ast> for V<'a> {
+                fn visit_expr_call(&mut self, c: &'ast ExprCall) {
+                  if let Expr::Path(p) = &*c.func {
+                    let s = p.path.segments.iter().map(|x| x.ident.to_string()).collect::<Vec<_>>().join("::");
+                    if s.starts_with("alloc::alloc::") && !s.ends_with("handle_alloc_error") && !s.ends_with("Layout") {
+                      self.0.push((self.1.clone(), s.rsplit("::").next().unwrap().to_string()));
+                    }
+                  }
+                  visit::visit_expr_call(self, c);
+                }
+              }
+              let ctx = format!("{}::{}", rel, m.sig.ident);
+              visit::Visit::visit_block(&mut V(&mut alloc_sites, ctx), &m.block);
+
+              if self_ty.starts_with("MiniVec<") {
+                match &tr {
+                  None => {
+                    if matches!(m.vis, Visibility::Public(_)) {
+                      let (borrow, outl) = classify_return(&m.sig, &lifetime_types);
+                      let recv = match m.sig.receiver() {
+                        Some(r) if r.reference.is_some() && r.mutability.is_some() => "refMut",
+                        Some(r) if r.reference.is_some() => "ref_",
+                        Some(_) => "owned",
+                        None => "none",
+                      };
+                      sigs.push(SigFact {
+                        name: m.sig.ident.to_string(),
+                        recv,
+                        borrow,
+                        outlives_bound: outl,
+                        is_unsafe: m.sig.unsafety.is_some(),
+                      });
+                    }
+                  }
+                  Some(t) => {
+                    let key = match (t.as_str(), m.sig.ident.to_string().as_str()) {
+                      ("Ord", "cmp") => Some("ord"),
+                      ("PartialOrd", "partial_cmp") => Some("partialOrd"),
+                      ("Hash", "hash") => Some("hash"),
+                      ("Debug", "fmt") => Some("debug"),
+                      ("Borrow", "borrow") => Some("borrow"),
+                      ("BorrowMut", "borrow_mut") => Some("borrowMut"),
+                      ("Index", "index") => Some("index"),
+                      ("IndexMut", "index_mut") => Some("indexMut"),
+                      ("AsRef", "as_ref") if norm(&m.sig.output).contains("[T]") => Some("asRefSlice"),
+                      ("AsMut", "as_mut") if norm(&m.sig.output).contains("[T]") => Some("asMutSlice"),
+                      _ => None,
+                    };
+                    if let Some(k) = key {
+                      deleg.insert(k.to_string(), deleg_shape(&norm(&m.block)));
+                    }
+                  }
+                }
+              }
+            }
+          }
+        }
+        _ => {}
+      }
+    }
+  }
+  deleg.insert("partialEq".into(), deleg_shape(&macro_eq_body));
+
+  // ---- Lean
+  let mut l = String::from("/- GENERATED by mvtrans from /repo/src on every run. Do not edit. -/\nnamespace MV.Gen.Facts\n\n");
+  l.push_str("inductive FieldTy\n  | nonNullU8 | nonNullT | nonNullVec | phantomT | phantomRefT | usize | bool | rawConstT | rawMutT | rawU8\n  | elemT | vecRefMut | vecOwned | closure | iter | other\n  deriving DecidableEq, Repr\n\n");
+  for name in ["MiniVec", "Header", "Drain", "Splice", "DrainFilter", "IntoIter"] {
+    let (fields, repr_c, _) = structs.get(name).cloned().unwrap_or((vec!["other"], false, false));
+    l.push_str(&format!(
+      "def fields{} : List FieldTy := [{}]\ndef reprC{} : Bool := {}\n",
+      name,
+      fields.iter().map(|f| format!(".{}", f)).collect::<Vec<_>>().join(", "),
+      name,
+      repr_c
+    ));
+  }
+  l.push_str("\ninductive Recv | ref_ | refMut | owned | none\n  deriving DecidableEq, Repr\n");
+  l.push_str("/-- what the value returned by a public method borrows from: nothing, `&self`, `&mut self` (by elision),\n    a lifetime named on the function, or `'static` -/\ninductive Borrow | none | shared | mut_ | named | static_\n  deriving DecidableEq, Repr\n\n");
+  let mut seen = BTreeSet::new();
+  sigs.retain(|s| seen.insert(s.name.clone()));
+  l.push_str("inductive Api\n");
+  for s in &sigs {
+    l.push_str(&format!("  | {}\n", lean_ident(&s.name)));
+  }
+  l.push_str("  deriving DecidableEq, Repr\n\n");
+  l.push_str("def allApis : List Api := [");
+  l.push_str(&sigs.iter().map(|s| format!(".{}", lean_ident(&s.name))).collect::<Vec<_>>().join(", "));
+  l.push_str("]\n\n");
+  for (fname, ty, get) in [
+    ("recv", "Recv", Box::new(|s: &SigFact| format!(".{}", s.recv)) as Box<dyn Fn(&SigFact) -> String>),
+    ("borrow", "Borrow", Box::new(|s: &SigFact| format!(".{}", s.borrow))),
+    ("elemOutlives", "Bool", Box::new(|s: &SigFact| s.outlives_bound.to_string())),
+    ("isUnsafe", "Bool", Box::new(|s: &SigFact| s.is_unsafe.to_string())),
+  ] {
+    l.push_str(&format!("def {} : Api → {}\n", fname, ty));
+    for s in &sigs {
+      l.push_str(&format!("  | .{} => {}\n", lean_ident(&s.name), get(s)));
+    }
+    l.push('\n');
+  }
+  l.push_str("/-- bound on `T` of an `unsafe impl Send/Sync` -/\ninductive AutoBound | send | sync | unbounded | otherBound | absent\n  deriving DecidableEq, Repr\n\n");
+  for ty in ["MiniVec", "IntoIter", "Drain", "Splice", "DrainFilter"] {
+    for tr in ["Send", "Sync"] {
+      let found = unsafe_impls.iter().find(|(t, s, _)| t == tr && s.starts_with(&format!("{}<", ty)));
+      let v = match found {
+        None => "absent",
+        Some((_, _, b)) => {
+          let b = b.replace("core::marker::", "");
+          if b == "Send" {
+            "send"
+          } else if b == "Sync" {
+            "sync"
+          } else if b.is_empty() {
+            "unbounded"
+          } else {
+            "otherBound"
+          }
+        }
+      };
+      l.push_str(&format!("def unsafeImpl{}{} : AutoBound := .{}\n", tr, ty, v));
+    }
+  }
+  l.push_str("\n/-- how a trait impl of `MiniVec` computes its answer -/\ninductive Deleg | sliceEq | sliceCmp | slicePartialCmp | sliceHash | sliceFmt | sliceRef | sliceIndex | sliceIndexMut | other | absent\n  deriving DecidableEq, Repr\n\n");
+  for k in ["partialEq", "ord", "partialOrd", "hash", "debug", "borrow", "borrowMut", "asRefSlice", "asMutSlice", "index", "indexMut"] {
+    l.push_str(&format!("def deleg_{} : Deleg := .{}\n", k, deleg.get(k).copied().unwrap_or("absent")));
+  }
+  l.push_str("\n/-- a call of the global allocator API and the function it occurs in -/\ninductive AllocSite | growAlloc | growRealloc | dropDealloc | otherSite\n  deriving DecidableEq, Repr\n\n");
+  let sites: Vec<&str> = alloc_sites
+    .iter()
+    .map(|(ctx, callee)| match (ctx.as_str(), callee.as_str()) {
+      ("lib.rs::grow", "alloc") => "growAlloc",
+      ("lib.rs::grow", "realloc") => "growRealloc",
+      ("drop.rs::drop", "dealloc") => "dropDealloc",
+      _ => "otherSite",
+    })
+    .collect();
+  l.push_str(&format!("def allocSites : List AllocSite := [{}]\n", sites.iter().map(|s| format!(".{}", s)).collect::<Vec<_>>().join(", ")));
+  l.push_str("\nend MV.Gen.Facts\n");
+
+  // ---- json
+  let mut j = String::from("{\n \"apis\": [");
+  j.push_str(&sigs.iter().map(|s| format!("{{\"name\": \"{}\", \"recv\": \"{}\", \"borrow\": \"{}\", \"elem_outlives\": {}}}", s.name, s.recv, s.borrow, s.outlives_bound)).collect::<Vec<_>>().join(", "));
+  j.push_str("],\n \"alloc_sites\": [");
+  j.push_str(&alloc_sites.iter().map(|(a, b)| format!("\"{} -> {}\"", a, b)).collect::<Vec<_>>().join(", "));
+  j.push_str("],\n \"unsafe_impls\": [");
+  j.push_str(&unsafe_impls.iter().map(|(a, b, c)| format!("\"{} for {} where T: {}\"", a, b, c)).collect::<Vec<_>>().join(", "));
+  j.push_str("]\n}");
+  (l, j)
+}
+
+fn lean_ident(s: &str) -> String {
+  match s {
+    "new" | "from" | "end" | "at" | "do" | "then" | "else" | "let" | "in" | "with" | "open" | "def" | "fun" => format!("{}_", s),
+    _ => s.to_string(),
+  }
 }
